@@ -79,6 +79,30 @@ Statement (properties.jsonl), split into the parts below:
      status of every step and the whole process state (deep hash of every live
      message / session object) after every step of a history executed on the
      real code equal `Proc.runD` of the model on the same schedule.
+ (G) "for all inputs ... every supported curve": the quantifier is over every
+     EXECUTION, and an execution has a hidden parameter, the environment of the
+     Go runtime (number of CPUs / GOMAXPROCS, collector setting, word size); a
+     process restarted between two rounds may come up in another one.
+     Model/Sha2pcEnv.lean: an implementation = round functions indexed by the
+     environment, a history assigns an environment to every step.
+       `C18_env_model_has_no_parameter`: the model's round functions are the
+         constant family -- the explicit statement that (A)-(F) were proved
+         for functions of (inputs, randomness, messages) only.
+       `C18_env_hist_eq`: an implementation that agrees with the model in the
+         environments of a history runs the environment-free history (state
+         and status of every step), so (F) transfers.
+       `C18_env_correct_partial`: (F)'s result under every per-step environment
+         assignment, GIVEN that agreement -- the ASSUMPTION about the real
+         code.  Its tie is the `env` mode of the harness (obligation of the
+         check): the same sessions / histories on the real code with
+         GOMAXPROCS in {1,2,3,5,7,12,16,24,61,...} and the collector off / 100
+         / 1 set around every step, compared with `Proc.runE` of the constant
+         family (op `histe`).  The word size cannot be varied: /repo does not
+         compile for a 32-bit GOARCH (p2p/network.go).
+       `C18_env_dependence_witness`: the assumption is needed, and correct
+         runs in some environments say nothing about the others (work split
+         over `procs` workers, remainder dropped: right whenever procs divides
+         the batch).
  (E) "the four-round protocol makes the evaluator output SHA-256(a xor b)" —
      `C18_sha2pc_correct_given_circuit_partial`: the evaluator outputs the
      embedded circuit's function of (a, b), for every group, KDF, hash,
@@ -90,6 +114,7 @@ Statement (properties.jsonl), split into the parts below:
 -/
 import MpcVerif.Proofs.Sha2pcCorrect
 import MpcVerif.Proofs.Sha2pcProc
+import MpcVerif.Proofs.Sha2pcEnv
 
 namespace Mpc
 open Mpc.Sha2pc
@@ -446,6 +471,147 @@ theorem C18_hist_correct_partial (cfg : Nat → SessCfg) (st : Proc sha2pcTy) (s
   exact ⟨m2, es, m3, hs.h2, hs.h3,
     C18_hist_complete_session (fun i => (cfg i).rounds) st sched j hf m2 es m3 _ hs x y z e4s hall hne hproj⟩
 
+/-! ## (G) the execution environment -/
+
+/-- THE MODEL HAS NO ENVIRONMENT PARAMETER.  The round functions of the model
+(`SessCfg.rounds`: pure functions of inputs, randomness and messages), seen as
+an implementation indexed by the environment, are the constant family: they
+compute the same in every two environments, and a history in which every step
+runs in its own environment (GOMAXPROCS, collector setting, word size --
+changing between any two rounds of any session) is, for the model, the history
+without environments: same final process state, same status of every step. -/
+theorem C18_env_model_has_no_parameter (cfg : Nat → SessCfg) :
+    (EnvCfg.const fun i => (cfg i).rounds).Indep ∧
+    (∀ (st : Proc sha2pcTy) (sched : List EvE),
+      Proc.runE (EnvCfg.const fun i => (cfg i).rounds) st sched =
+        Proc.runD (fun i => (cfg i).rounds) st (eraseEnv sched)) ∧
+    (∀ (st : Proc sha2pcTy) (pre : List EvE) (e : EvE),
+      Proc.stepResE (EnvCfg.const fun i => (cfg i).rounds) (Proc.runE (EnvCfg.const fun i => (cfg i).rounds) st pre) e =
+        Proc.stepResD (fun i => (cfg i).rounds) (Proc.runD (fun i => (cfg i).rounds) st (eraseEnv pre)) e.ev) :=
+  ⟨EnvCfg.const_indep _,
+   fun st sched => Proc.runE_eq_runD _ _ sched st (EnvCfg.const_agrees _ sched),
+   fun st pre e => Proc.statusE_eq _ _ st pre e [] (EnvCfg.const_agrees _ _)⟩
+
+/-- TRANSFER.  For ANY implementation (a family of round functions indexed by
+the environment, any value types) that computes what the model `cfg` computes
+in every environment occurring in the history: the history with per-step
+environments ends in the state of the environment-free history `Proc.runD`,
+and every step has the status `Proc.stepResD` gives it.  Everything proved
+about `Proc.runD` (frame, failures erased, isolation, complete sessions) then
+holds for the implementation under every such environment assignment.  An
+environment-independent implementation (`EnvCfg.Indep`) satisfies the
+hypothesis with `cfg` = what it computes in one reference environment. -/
+theorem C18_env_hist_eq {T : Ty} (impl : EnvCfg T) (cfg : Cfg T) (st : Proc T) (sched : List EvE)
+    (hag : impl.AgreesOn cfg sched) :
+    Proc.runE impl st sched = Proc.runD cfg st (eraseEnv sched) ∧
+    (∀ (pre : List EvE) (e : EvE) (post : List EvE), sched = pre ++ e :: post →
+      Proc.stepResE impl (Proc.runE impl st pre) e = Proc.stepResD cfg (Proc.runD cfg st (eraseEnv pre)) e.ev) ∧
+    (∀ e0 : Env, impl.Indep → impl.AgreesOn (impl e0) sched) :=
+  ⟨Proc.runE_eq_runD impl cfg sched st hag,
+   fun pre e post h => Proc.statusE_eq impl cfg st pre e post (h ▸ hag),
+   fun e0 h => h.agrees e0 sched⟩
+
+/-- FULL STATEMENT (not proved): `... .out = some (SHA-256 (a_j xor b_j))` for
+the real implementation in every environment.
+PROVED: for every implementation of the sha2pc rounds indexed by the
+environment that agrees with the model in the environments of the history
+(ASSUMPTION about the real code: its round functions do not depend on
+GOMAXPROCS / collector / word size; tied by the `env` mode of the harness on
+the swept environments), every history with failing steps whose steps run in
+ARBITRARY, per-step different environments leaves every complete session `j`
+(`SessCfg.Good`, own undisturbed steps = rounds 1, 2, 3, 4+) with the values
+of its isolated run and the embedded circuit's function of its own inputs.
+MISSING: as in `C18_hist_correct_partial`, and the assumption itself. -/
+theorem C18_env_correct_partial (impl : EnvCfg sha2pcTy) (cfg : Nat → SessCfg) (st : Proc sha2pcTy)
+    (sched : List EvE) (j : Nat)
+    (hag : impl.AgreesOn (fun i => (cfg i).rounds) sched)
+    (hf : Proc.DistFail (fun i => (cfg i).rounds) st (eraseEnv sched))
+    (hg : (cfg j).Good) (x y z : Bool) (e4s : List Act) (hall : ∀ a ∈ e4s, a.isE4 = true) (hne : e4s ≠ [])
+    (hproj : proj j (cleanSched (eraseEnv sched)) = .g1 :: .e2 x :: .g3 y z :: e4s) :
+    ∃ m2 es m3,
+      Proc.runE impl st sched j =
+        { m1 := some (round1 (cfg j).P (cfg j).aS (cfg j).sid).1, gs := some (round1 (cfg j).P (cfg j).aS (cfg j).sid).2,
+          m2 := some m2, es := some es, m3 := some m3,
+          out := some (bitsToBytes ((cfg j).P.circ.compute (bytesToBits (cfg j).a ++ bytesToBits (cfg j).b))) } := by
+  obtain ⟨m2, es, m3, _, _, h⟩ := C18_hist_correct_partial cfg st (eraseEnv sched) j hf hg x y z e4s hall hne hproj
+  exact ⟨m2, es, m3, by rw [Proc.runE_eq_runD impl _ sched st hag]; exact h⟩
+
+/-! An implementation for which the assumption FAILS: round 3 computes its
+per-item results with the work split over `procs` workers (`splitMap`), items
+no worker takes stay zero; round 4 accepts only the complete message. -/
+
+abbrev splitTy : Ty := { M1 := Nat, GS := Nat, M2 := List Nat, ES := Nat, M3 := List Nat, D := Nat }
+
+/-- the batch always has 4 items (sha2pc: always 256 transfers) -/
+def fix4 (m2 : List Nat) : List Nat := (m2 ++ [0, 0, 0, 0]).take 4
+
+theorem fix4_length (m2 : List Nat) : (fix4 m2).length = 4 := by
+  simp only [fix4, List.length_take, List.length_append, List.length_cons, List.length_nil]
+  omega
+
+def splitRounds (w : Nat) : Rounds splitTy where
+  r1 := (1, 2)
+  r2 := fun _ => .ok ([10, 20, 30, 40], 3)
+  r3 := fun _ m2 => .ok (splitMap w (· + 1) 0 (fix4 m2))
+  r4 := fun _ m3 => if m3 = [11, 21, 31, 41] then .ok 7 else .error
+  t1 := .ok
+  tg := .ok
+  t2 := .ok
+  te := .ok
+  t3 := .ok
+  x1 := fun _ _ => .error
+  x2 := fun _ _ _ => .error
+  x3 := fun _ _ _ _ => .error
+  u1 := fun _ _ => .error
+  u2 := fun _ _ => .error
+  u3 := fun _ _ => .error
+
+/-- a worker count that divides the batch computes the model -/
+theorem splitRounds_of_dvd (w : Nat) (h : w ∣ 4) : splitRounds w = splitRounds 1 := by
+  have e : ∀ m2, splitMap w (· + 1) 0 (fix4 m2) = splitMap 1 (· + 1) 0 (fix4 m2) := fun m2 => by
+    rw [splitMap_of_dvd _ _ _ _ (by rw [fix4_length]; exact h), splitMap_of_dvd _ _ _ _ (Nat.one_dvd _)]
+  simp only [splitRounds, e]
+
+def splitImpl : EnvCfg splitTy := fun env _ => splitRounds env.procs
+
+def envP (p : Nat) : Env := { procs := p, gc := some 100, wordBits := 64 }
+
+/-- one session, rounds 1..4, every step under `procs = p` except round 3 under `procs = q` -/
+def splitSched (p q : Nat) : List EvE :=
+  [⟨⟨0, .g1, none⟩, envP p⟩, ⟨⟨0, .e2 false, none⟩, envP p⟩, ⟨⟨0, .g3 false false, none⟩, envP q⟩,
+   ⟨⟨0, .e4 false false, none⟩, envP p⟩]
+
+/-- THE ASSUMPTION IS NEEDED, and environments in which an implementation is
+right say nothing about the others.  `splitImpl` computes the model
+(`splitRounds 1`) in every environment whose worker count divides the number
+of items (4; `splitMap_of_dvd`), so every history
+run entirely in such environments is correct; it is not environment
+independent, and the same session with round 3 alone run under procs = 3 (a
+restart in a container with another CPU limit) ends WITHOUT a result: round 3
+succeeds with an incomplete message (last item zero: `splitMap_getLast_of_not_dvd`)
+and round 4 rejects it. -/
+theorem C18_env_dependence_witness :
+    (∀ (st : Proc splitTy) (sched : List EvE), (∀ e ∈ sched, e.env.procs ∣ 4) →
+      Proc.runE splitImpl st sched = Proc.runD (fun _ => splitRounds 1) st (eraseEnv sched)) ∧
+    (Proc.runE splitImpl (fun _ => {}) (splitSched 2 4) 0).out = some 7 ∧
+    ¬ splitImpl.Indep ∧
+    (Proc.runE splitImpl (fun _ => {}) (splitSched 2 3) 0).m3 = some [11, 21, 31, 0] ∧
+    (Proc.runE splitImpl (fun _ => {}) (splitSched 2 3) 0).out = none ∧
+    (Proc.runD (fun _ => splitRounds 1) (fun _ => {}) (eraseEnv (splitSched 2 3)) 0).out = some 7 := by
+  refine ⟨?_, by decide, ?_, by decide, by decide, by decide⟩
+  · intro st sched hs
+    apply Proc.runE_eq_runD
+    intro e he
+    funext i
+    exact splitRounds_of_dvd _ (hs e he)
+  · intro h
+    have := congrFun (h (envP 3) (envP 1)) 0
+    have h3 : (splitRounds 3).r3 0 [10, 20, 30, 40] = (splitRounds 1).r3 0 [10, 20, 30, 40] := by
+      have : splitRounds 3 = splitRounds 1 := this
+      rw [this]
+    revert h3
+    decide
+
 /-! ## Non-vacuity -/
 
 /-- A toy curve: name "T", one-byte field, every abscissa decompresses to 1 (odd) or 2 (even). -/
@@ -719,6 +885,50 @@ example (st : Proc sha2pcTy) (h0 : (st 0).gs = some toyGS) (h1 : (st 1).m2 = som
 example (st : Proc sha2pcTy) (h0 : (st 0).es = some toyES) (h1 : (st 1).m3 = some toyR3) :
     Proc.stepResD (fun i => (toyCfg i).rounds) st ⟨0, .e4 false false, some (.foreignMsg 1)⟩ = some .error :=
   ((C18_hist_faults_rejected toyCfg toyCfg_curve toyCfg_parity).2.2 st 0 1 toyES toyR3 (by decide)).1 h0 h1
+
+/-! ### environments -/
+
+/-- the toy history with an environment per step: session 0 on one CPU, session
+1 on three, session 2 on 61; the collector off while a step is disturbed -/
+def toyEnvOf (e : Ev) : Env :=
+  { procs := [1, 3, 61].getD e.sess 7, gc := if e.dist.isSome then none else some 100, wordBits := 64 }
+def toySchedE : List EvE := toySched.map fun e => ⟨e, toyEnvOf e⟩
+theorem toySchedE_erase : eraseEnv toySchedE = toySched := eraseEnv_attach _ _
+
+/-- the environment changes between steps of the toy history -/
+example : (toySchedE.map (·.env.procs)).take 6 = [1, 3, 3, 1, 1, 61] := by decide
+
+/-- `C18_env_correct_partial`: its hypotheses are satisfiable (the model's own
+family on the toy history with per-step environments), conclusion for session 0. -/
+example (st : Proc sha2pcTy) :
+    (Proc.runE (EnvCfg.const fun i => (toyCfg i).rounds) st toySchedE 0).out =
+      some (bitsToBytes (toyCircuit.compute (bytesToBits (List.replicate 32 0x0f) ++ bytesToBits (List.replicate 32 0x35)))) := by
+  obtain ⟨m2, es, m3, h⟩ := C18_env_correct_partial (EnvCfg.const fun i => (toyCfg i).rounds) toyCfg st toySchedE 0
+    (EnvCfg.const_agrees _ _) (by rw [toySchedE_erase]; exact toySched_distFail st) (toyCfg_good 0)
+    false false true [.e4 false false, .e4 true true] (by decide) (by decide) (by rw [toySchedE_erase]; decide)
+  rw [h]
+  rfl
+
+/-- `C18_env_model_has_no_parameter` on the toy history. -/
+example (st : Proc sha2pcTy) :
+    Proc.runE (EnvCfg.const fun i => (toyCfg i).rounds) st toySchedE = Proc.runD (fun i => (toyCfg i).rounds) st toySched := by
+  rw [(C18_env_model_has_no_parameter toyCfg).2.1 st toySchedE, toySchedE_erase]
+
+/-- `C18_env_hist_eq`: the hypothesis is satisfiable by an implementation that
+is NOT constant (`splitImpl` in environments whose worker count divides the
+batch), and not by every implementation (the same with round 3 under 3 CPUs). -/
+example : splitImpl.AgreesOn (fun _ => splitRounds 1) (splitSched 2 4) :=
+  fun e he => funext fun _ => splitRounds_of_dvd _ (by
+    simp only [splitSched, List.mem_cons, List.mem_nil_iff, or_false] at he
+    rcases he with rfl | rfl | rfl | rfl <;> decide)
+example : ¬ splitImpl.AgreesOn (fun _ => splitRounds 1) (splitSched 2 3) := by
+  intro h
+  have h' := (C18_env_hist_eq splitImpl _ (fun _ => {}) _ h).1
+  have h3 := C18_env_dependence_witness.2.2.2.2.1
+  have h1 := C18_env_dependence_witness.2.2.2.2.2
+  rw [h'] at h3
+  rw [h1] at h3
+  cases h3
 
 /-- Off-curve coordinates exist in the toy group: `(1, 1)` is not a curve point. -/
 example : toyCrypto.ofPt ⟨1, 1⟩ = none ∧ (toyCrypto.ofPt ⟨1, 0⟩).isSome := by decide
